@@ -439,7 +439,7 @@ def prove(prop_id, extra_targets=()):
     }
 
 
-def extract(prop_id, driver, extra_ml=()):
+def extract(prop_id, driver, extra_ml=(), prelude=()):
     """Compile coq/Extract/Extract_<id>.v (ExtrOcamlBasic only) in a build
     directory and link the extracted module with ocaml/<driver>.  Returns the
     executable path.  Cached on the hash of every .v it depends on."""
@@ -451,7 +451,7 @@ def extract(prop_id, driver, extra_ml=()):
     if not ok:
         raise RuntimeError("model does not compile: " + logtxt[-3000:])
     vs = [os.path.join(COQ, f) for f in coq_files()] + [ev, os.path.join(VERIF, "ocaml", driver)] + \
-         [os.path.join(VERIF, "ocaml", m) for m in extra_ml]
+         [os.path.join(VERIF, "ocaml", m) for m in list(extra_ml) + list(prelude)]
     h = file_hash(vs)
     d = os.path.join(BUILD, "extract", prop_id)
     exe = os.path.join(d, "drv-" + h)
@@ -465,8 +465,15 @@ def extract(prop_id, driver, extra_ml=()):
     mlis = sorted(n for n in os.listdir(d) if n.endswith(".mli"))
     if len(mls) != 1:
         raise RuntimeError("expected exactly one extracted module, got %r" % mls)
-    for m in list(extra_ml) + [driver]:
+    for m in list(extra_ml):
         shutil.copy(os.path.join(VERIF, "ocaml", m), os.path.join(d, m))
+    # the driver = `open <Model>` + prelude fragments (ocaml/hvnum.ml, hvdump.ml, ...) + its own text
+    with open(os.path.join(d, driver), "w") as f:
+        if prelude:
+            f.write("open %s\n" % (mls[0][:-3].capitalize()))
+        for m in list(prelude) + [driver]:
+            f.write("# 1 \"%s\"\n" % m)
+            f.write(open(os.path.join(VERIF, "ocaml", m)).read() + "\n")
     cmd = ["ocamlfind", "ocamlopt", "-w", "-a", "-package", "str", "-linkpkg"] + mlis + mls + list(extra_ml) + [driver, "-o", exe]
     sh(cmd, cwd=d, timeout=900, check=True)
     return exe
